@@ -1,7 +1,9 @@
 import HpxVerif.Model.Topo
 import HpxVerif.Lemmas.TopoGen
 import HpxVerif.Lemmas.EdgeInternal3
+import HpxVerif.Lemmas.EdgeExternal4
 import HpxVerif.Gen.Consts
+import HpxVerif.Lemmas.NoBmi
 
 set_option autoImplicit false   -- an unknown identifier in a statement is an error, never a new variable
 
@@ -169,5 +171,150 @@ theorem internal_edge_top_spec (cfg : Cfg) (hbmi : cfg.bmi = false) (d hash dd :
 
 
 end InternalEdges
+
+section ExternalEdges
+open Hpx Hpx.Topo Hpx.TopoSpec Hpx.TopoNeigh Hpx.TopoLift Hpx.EdgeInternal Hpx.EdgeExternal MW
+
+/-! ## external edges: every depth, every `delta_depth ≥ 1` with `depth + delta_depth ≤ 29`, every cell, any build
+
+`delta_depth = 0` is excluded: see `external_edge_delta0` below (the masks `x_mask(0)`, `y_mask(0)`, `xy_mask(0)`). -/
+
+/-- **C14, `external_from_direction`** (Target 1): on a cell number of the depth the computation of the pieces never
+    panics (every table lookup succeeds), for both orders; the `(dir, hv)` components are the entries of
+    `neighbours(hash)` (in `MainWind` index order, or sorted by number); and for every piece `(dir, from_, hv)`: `hv` is
+    the neighbour of `hash` in direction `dir`, `hash` is the neighbour of `hv` in direction `from_` (`Layer::neighbour`),
+    the vertices of `hv` shared with `hash` are those of its side / corner `from_`, and `from_` is cardinal (ordinal)
+    iff `dir` is.  Every depth `≤ 29`, any build. -/
+theorem external_from_direction (cfg : Cfg) (d : Nat) (hd : d ≤ 29) (hash : Nat) (hh : hash < 12 * 4 ^ d) (s : Bool) :
+    ∃ l, externalPieces cfg d hash s = some l ∧
+      l.map (fun t => (t.1, t.2.2)) = orderOf s (nbList d hash false) ∧
+      Topo.neighbours cfg d hash false = some (nbList d hash false) ∧
+      ∀ dir f hv, (dir, f, hv) ∈ l →
+        hv < 12 * 4 ^ d ∧ hv ≠ hash ∧ dir ≠ C ∧ f ≠ C ∧
+        Topo.neighbour cfg d hash dir = some (some hv) ∧ Topo.neighbour cfg d hv f = some (some hash) ∧
+        shared (2 ^ d) (partsOf d hv) (partsOf d hash) = edgeOf f ∧
+        f.isCardinal = dir.isCardinal ∧ f.isOrdinal = dir.isOrdinal :=
+  Hpx.EdgeExternal.external_from_direction cfg d hd hash hh s
+
+/-- **C14, `external_edge_spec`** (Target 2): on a cell number of the depth, `1 ≤ dd`, `d + dd ≤ 29`:
+    `external_edge` (`sorted = false`) and `external_edge_sorted` (`sorted = true`) do not panic and return the
+    concatenation, over the neighbours `(dir, hv)` of `hash` (entries of `neighbours(hash)` in `MainWind` index order
+    / by increasing number), of the sub-cells of `hv` on its side (ordinal `dir`) / corner (cardinal `dir`) facing
+    `hash` (`sideList hv dd (fromD d hash dir)`).  Any build. -/
+theorem external_edge_spec (cfg : Cfg) (d dd : Nat) (h1 : 1 ≤ dd) (hsum : d + dd ≤ 29) (hash : Nat)
+    (hh : hash < 12 * 4 ^ d) (s : Bool) :
+    externalEdge cfg d hash dd s = some (externalList d hash dd s) :=
+  Hpx.EdgeExternal.external_edge_spec cfg d dd h1 hsum hash hh s
+
+/-- **C14, `external_edge_struct_spec`** (Target 6): `external_edge_struct` does not panic (the consistency checks
+    between the kind of `from_` and the kind of `dir` always pass) and files, for each entry `(dir, hv)` of
+    `neighbours(hash)` in `MainWind` index order, under `dir` the sub-cells of `hv` on its side / corner facing `hash`:
+    one corner sub-cell for a cardinal `dir`, the `2^dd` sub-cells of the facing side for an ordinal `dir` -/
+theorem external_edge_struct_spec (cfg : Cfg) (d dd : Nat) (h1 : 1 ≤ dd) (hsum : d + dd ≤ 29) (hash : Nat)
+    (hh : hash < 12 * 4 ^ d) :
+    externalEdgeStruct cfg d hash dd =
+      some ((nbList d hash false).map fun e => (e.1, sideList e.2 dd (fromD d hash e.1))) ∧
+    ∀ dir hv, (dir, hv) ∈ nbList d hash false →
+      (sideList hv dd (fromD d hash dir)).length = (if dir.isCardinal then 1 else 2 ^ dd) ∧
+      (fromD d hash dir).isCardinal = dir.isCardinal :=
+  Hpx.EdgeExternal.external_edge_struct_spec cfg d dd h1 hsum hash hh
+
+/-- **C14, `external_edge_set`** (Target 3, soundness and completeness): the members of the external edge are exactly
+    the cell numbers `h'` of depth `d + dd` that lie outside `hash` (their ancestor at depth `d` is not `hash`) and share
+    a vertex, as points of the sphere, with some descendant `h''` of `hash` at depth `d + dd`.  Both orders, any build,
+    every `d`, `dd ≥ 1`, `d + dd ≤ 29`. -/
+theorem external_edge_set (cfg : Cfg) (d dd : Nat) (h1 : 1 ≤ dd) (hsum : d + dd ≤ 29) (hash : Nat)
+    (hh : hash < 12 * 4 ^ d) (s : Bool) :
+    ∃ l, externalEdge cfg d hash dd s = some l ∧ ∀ h', h' ∈ l ↔
+      (h' < 12 * 4 ^ (d + dd) ∧ h' / 4 ^ dd ≠ hash ∧
+        ∃ h'', h'' / 4 ^ dd = hash ∧ Touch (2 ^ (d + dd)) (partsOf (d + dd) h') (partsOf (d + dd) h'')) :=
+  Hpx.EdgeExternal.external_edge_set cfg d dd h1 hsum hash hh s
+
+/-- **C14, `external_edge_nodup`** (Target 4): no duplicates, both orders -/
+theorem external_edge_nodup (cfg : Cfg) (d dd : Nat) (h1 : 1 ≤ dd) (hsum : d + dd ≤ 29) (hash : Nat)
+    (hh : hash < 12 * 4 ^ d) (s : Bool) :
+    ∃ l, externalEdge cfg d hash dd s = some l ∧ l.Nodup :=
+  Hpx.EdgeExternal.external_edge_nodup cfg d dd h1 hsum hash hh s
+
+/-- **C14, `external_edge_sorted_spec`** (Target 5): `external_edge_sorted` returns a strictly increasing list, which
+    is a permutation of the result of `external_edge` (same members, same length): the neighbours are visited by
+    increasing number `hv`, the pieces of different neighbours lie in the disjoint increasing ranges
+    `[hv·4^dd, (hv+1)·4^dd)`, and each piece is increasing -/
+theorem external_edge_sorted_spec (cfg : Cfg) (d dd : Nat) (h1 : 1 ≤ dd) (hsum : d + dd ≤ 29) (hash : Nat)
+    (hh : hash < 12 * 4 ^ d) :
+    ∃ ls lu, externalEdge cfg d hash dd true = some ls ∧ externalEdge cfg d hash dd false = some lu ∧
+      ls.Pairwise (· < ·) ∧ ls.Perm lu ∧ (∀ h', h' ∈ ls ↔ h' ∈ lu) ∧ ls.length = lu.length :=
+  Hpx.EdgeExternal.external_edge_sorted_spec cfg d dd h1 hsum hash hh
+
+/-- **C14, `external_edge_length`**: the external edge has `4·2^dd` cells along the four sides plus one corner cell per
+    cardinal neighbour: `4·2^dd + 4` in general, `4·2^dd + 3` for the 24 cells with 7 neighbours (`Special`),
+    `4·2^dd + 2` at depth 0 (both orders) -/
+theorem external_edge_length (cfg : Cfg) (d dd : Nat) (h1 : 1 ≤ dd) (hsum : d + dd ≤ 29) (hash : Nat)
+    (hh : hash < 12 * 4 ^ d) (s : Bool) :
+    ∃ l, externalEdge cfg d hash dd s = some l ∧
+      l.length = 4 * 2 ^ dd + ((nbList d hash false).filter fun e => e.1.isCardinal).length ∧
+      l.length = 4 * 2 ^ dd + (if d = 0 then 2 else if Special (2 ^ d) (partsOf d hash) then 3 else 4) :=
+  Hpx.EdgeExternal.external_edge_length cfg d dd h1 hsum hash hh s
+
+/-- **C14, `from_dir_spec`** (the heart of the external edge): if `q` is the neighbour of the cell `p` in direction
+    `dir`, the direction computed by the code (`fromDir`: `dir.opposite` inside a base cell, the table
+    `direction_from_neighbour` at `n = 1`, the table `edge_cell_direction_from_neighbour` applied to the position of
+    `p` on the border of its base cell otherwise) exists (no table lookup fails), leads back from `q` to `p`, and is
+    cardinal iff `dir` is.  Every `1 ≤ n ≤ 2^32`. -/
+theorem from_dir_spec (n : Nat) (p q : HashParts) (dir : MW) (hn : 1 ≤ n) (hn2 : n ≤ 4294967296) (hp : Valid n p)
+    (hdir : dir ≠ C) (h : neighbourParts n p dir = some q) :
+    ∃ f, fromDir n p dir q = some f ∧ neighbourParts n q f = some p ∧ f.isCardinal = dir.isCardinal ∧ f ≠ C :=
+  Hpx.EdgeExternal.from_dir_spec n p q dir hn hn2 hp hdir h
+
+
+end ExternalEdges
+
+
+/-! ## every build: the statements above that carry `cfg.bmi = false`, for every `cfg` (LUT tables or BMI2) -/
+
+section AnyBuild
+open Hpx Hpx.Topo Hpx.LayerBmi Hpx.EdgeInternal Hpx.BmiTransfer
+
+theorem internal_edge_set_any_build (cfg : Cfg) (hash dd : Nat) (h1 : 1 ≤ dd) (hd : dd ≤ 29)
+    (hh : hash < 2 ^ (64 - 2 * dd)) :
+    ∃ l, internalEdge cfg hash dd = some l ∧ l = edgeList hash dd ∧ l.length = 4 * 2 ^ dd - 4 ∧ l.Nodup ∧
+      (∀ h', h' ∈ l ↔ ∃ x y, x < 2 ^ dd ∧ y < 2 ^ dd ∧ (x = 0 ∨ x = 2 ^ dd - 1 ∨ y = 0 ∨ y = 2 ^ dd - 1) ∧
+        h' = hash * 4 ^ dd + interleave x y) := by
+  rw [internalEdge_noBmi]
+  exact Hpx.C14.internal_edge_set (noBmi cfg) (noBmi_bmi cfg) hash dd h1 hd hh
+
+theorem internal_parts_any_build (cfg : Cfg) (hash dd : Nat) (h1 : 1 ≤ dd) (hd : dd ≤ 29)
+    (hh : hash < 2 ^ (64 - 2 * dd)) :
+    internalEdgePart cfg hash dd MW.SE = some ((List.range (2 ^ dd)).map fun x => hash * 4 ^ dd + interleave x 0) ∧
+    internalEdgePart cfg hash dd MW.SW = some ((List.range (2 ^ dd)).map fun y => hash * 4 ^ dd + interleave 0 y) ∧
+    internalEdgePart cfg hash dd MW.NE =
+      some ((List.range (2 ^ dd)).map fun y => hash * 4 ^ dd + interleave (2 ^ dd - 1) y) ∧
+    internalEdgePart cfg hash dd MW.NW =
+      some ((List.range (2 ^ dd)).map fun x => hash * 4 ^ dd + interleave x (2 ^ dd - 1)) ∧
+    (∀ dir, dir ≠ MW.SE → dir ≠ MW.SW → dir ≠ MW.NE → dir ≠ MW.NW → internalEdgePart cfg hash dd dir = none) := by
+  simp only [internalEdgePart_noBmi cfg]
+  exact Hpx.C14.internal_parts (noBmi cfg) (noBmi_bmi cfg) hash dd h1 hd hh
+
+theorem internal_edge_sorted_perm_any_build (cfg : Cfg) (hash dd : Nat) (h1 : 1 ≤ dd) (hd : dd ≤ 29)
+    (hh : hash < 2 ^ (64 - 2 * dd)) :
+    ∃ s l, internalEdgeSorted cfg hash dd = some s ∧ internalEdge cfg hash dd = some l ∧
+      s = sortedList hash dd ∧ l = edgeList hash dd ∧
+      s.length = 4 * 2 ^ dd - 4 ∧ s.Pairwise (· < ·) ∧ s.Perm l ∧
+      (∀ h', h' ∈ s ↔ ∃ x y, x < 2 ^ dd ∧ y < 2 ^ dd ∧ (x = 0 ∨ x = 2 ^ dd - 1 ∨ y = 0 ∨ y = 2 ^ dd - 1) ∧
+        h' = hash * 4 ^ dd + interleave x y) := by
+  rw [internalEdge_noBmi, internalEdgeSorted_noBmi]
+  exact Hpx.C14.internal_edge_sorted_perm (noBmi cfg) (noBmi_bmi cfg) hash dd h1 hd hh
+
+theorem internal_edge_top_spec_any_build (cfg : Cfg) (d hash dd : Nat) (h1 : 1 ≤ dd) (hsum : d + dd ≤ 29)
+    (hh : hash < 12 * 4 ^ d) :
+    internalEdgeTop cfg 29 d hash dd = some (edgeList hash dd) ∧
+    internalEdgeSortedTop cfg 29 d hash dd = some (sortedList hash dd) := by
+  rw [internalEdgeTop_noBmi, internalEdgeSortedTop_noBmi]
+  exact Hpx.C14.internal_edge_top_spec (noBmi cfg) (noBmi_bmi cfg) d hash dd h1 hsum hh
+
+/-- non-vacuity: a BMI2 configuration, cell 7 refined by two levels -/
+example := internal_edge_set_any_build { debug := true, bmi := true } 7 2 (by omega) (by omega) (by norm_num)
+example := internal_edge_top_spec_any_build { debug := true, bmi := true } 1 7 2 (by omega) (by omega) (by norm_num)
+end AnyBuild
 
 end Hpx.C14
